@@ -1,6 +1,6 @@
 /-
 C15 — Rate limit: probes never leave faster than the configured rate.
-Property theorems only (lemmas: `Proofs/Limiter.lean`, `Proofs/LimiterSet.lean`).
+Property theorems only (lemmas: `Proofs/Limiter.lean`, `Proofs/LimiterSet.lean`, `Proofs/LimiterMain.lean`).
 
 `release c now j` is the time the `j`-th `Take` (0-based, in the order the limiter's compare-and-swap served
 them) lets its probe go; `now j` is the clock reading of that `Take`.  `cfg N W` is what
@@ -12,6 +12,7 @@ import SxVerif.Model.Limiter
 import SxVerif.Spec.Limiter
 import SxVerif.Proofs.Limiter
 import SxVerif.Proofs.LimiterSet
+import SxVerif.Proofs.LimiterMain
 
 namespace SxVerif.C15
 open SxVerif.Limiter SxVerif.Generated SxVerif.Generated.Limiter
@@ -27,35 +28,22 @@ theorem translator_clean : translatorProblems = [] := by decide
     `(k-1-10)·⌊W/N⌋` to be released. -/
 theorem C15_rate (N W : Int) (hN : 1 ≤ N) (hW : 0 ≤ W) (now : Nat → Int) (hclk : ClockOK now)
     (i k : Nat) (hk : 1 ≤ k) :
-    release (cfg N W) now (i + k - 1) - release (cfg N W) now i ≥ ((k : Int) - 1 - 10) * (W / N) := by
-  have h := Proofs.Limiter.cfg_ok N W hN hW defaultSlack (by decide)
-  have g := Proofs.Limiter.release_gap _ _ h.1 now hclk i (k - 1)
-  rw [h.2] at g
-  have e1 : i + (k - 1) = i + k - 1 := by omega
-  have e2 : (((k - 1 : Nat) : Int) - defaultSlack) = (k : Int) - 1 - 10 := by
-    simp only [defaultSlack]; omega
-  rw [e1, e2] at g
-  exact g
+    release (cfg N W) now (i + k - 1) - release (cfg N W) now i ≥ ((k : Int) - 1 - 10) * (W / N) :=
+  Proofs.Limiter.main_rate N W hN hW now hclk i k hk
 
 /-- the same for any burst allowance `b ≥ 0` (`ratelimit.WithSlack(b)`; sx uses the default 10) -/
 theorem C15_rate_slack (N W b : Int) (hN : 1 ≤ N) (hW : 0 ≤ W) (hb : 0 ≤ b) (now : Nat → Int) (hclk : ClockOK now)
     (i m : Nat) :
-    release (cfg N W b) now (i + m) - release (cfg N W b) now i ≥ ((m : Int) - b) * (W / N) := by
-  have h := Proofs.Limiter.cfg_ok N W hN hW b hb
-  have g := Proofs.Limiter.release_gap _ _ h.1 now hclk i m
-  rw [h.2] at g
-  exact g
+    release (cfg N W b) now (i + m) - release (cfg N W b) now i ≥ ((m : Int) - b) * (W / N) :=
+  Proofs.Limiter.main_rate_slack N W b hN hW hb now hclk i m
 
 /-- order-free reading: among ANY `k` distinct probes — however they are numbered, e.g. by several workers —
     the last and the first release are at least `(k-1-10)·⌊W/N⌋` apart -/
 theorem C15_any_set (N W : Int) (hN : 1 ≤ N) (hW : 0 ≤ W) (now : Nat → Int) (hclk : ClockOK now)
     (S : List Nat) (hnd : S.Nodup) (hne : S ≠ []) :
     ∃ i ∈ S, ∃ j ∈ S,
-      release (cfg N W) now j - release (cfg N W) now i ≥ ((S.length : Int) - 1 - 10) * (W / N) := by
-  have h := Proofs.Limiter.cfg_ok N W hN hW defaultSlack (by decide)
-  obtain ⟨i, hi, j, hj, g⟩ := Proofs.Limiter.any_set _ _ h.1 now hclk S hnd hne
-  rw [h.2] at g
-  exact ⟨i, hi, j, hj, g⟩
+      release (cfg N W) now j - release (cfg N W) now i ≥ ((S.length : Int) - 1 - 10) * (W / N) :=
+  Proofs.Limiter.main_any_set N W hN hW now hclk S hnd hne
 
 /-- a probe is never released before its `Take` read the clock, and `Take` sleeps exactly until the release
     time (so, if `Sleep` sleeps at least its argument, the probe does not leave before `release`) -/
@@ -70,46 +58,22 @@ theorem C15_held (N W : Int) (now : Nat → Int) (j : Nat) :
 theorem C15_wire (N W : Int) (hN : 1 ≤ N) (hW : 0 ≤ W) (now : Nat → Int) (hclk : ClockOK now)
     (t : Nat → Int) (ε : Int) (hlo : ∀ j, release (cfg N W) now j ≤ t j) (hhi : ∀ j, t j ≤ release (cfg N W) now j + ε)
     (i k : Nat) (hk : 1 ≤ k) :
-    t (i + k - 1) - t i ≥ ((k : Int) - 1 - 10) * (W / N) - ε := by
-  have h := Proofs.Limiter.cfg_ok N W hN hW defaultSlack (by decide)
-  have g := Proofs.Limiter.wire_gap _ _ h.1 now hclk t ε hlo hhi i (k - 1)
-  rw [h.2] at g
-  have e1 : i + (k - 1) = i + k - 1 := by omega
-  have e2 : (((k - 1 : Nat) : Int) - defaultSlack) = (k : Int) - 1 - 10 := by
-    simp only [defaultSlack]; omega
-  rw [e1, e2] at g
-  exact g
+    t (i + k - 1) - t i ≥ ((k : Int) - 1 - 10) * (W / N) - ε :=
+  Proofs.Limiter.main_wire N W hN hW now hclk t ε hlo hhi i k hk
 
 /-- sequential sender (one goroutine: `Take`, write, `Take`, write, …; the next `Take` reads the clock after
     the previous probe hit the wire): no assumption on the dispatch latency, one unit weaker -/
 theorem C15_sequential (N W : Int) (hN : 1 ≤ N) (hW : 0 ≤ W) (now : Nat → Int) (hclk : ClockOK now)
     (t : Nat → Int) (hlo : ∀ j, release (cfg N W) now j ≤ t j) (hseq : ∀ j, t j ≤ now (j + 1))
     (i k : Nat) (hk : 1 ≤ k) :
-    t (i + k - 1) - t i ≥ ((k : Int) - 2 - 10) * (W / N) := by
-  have h := Proofs.Limiter.cfg_ok N W hN hW defaultSlack (by decide)
-  have g := Proofs.Limiter.seq_gap _ _ h.1 now hclk t hlo hseq i (k - 1)
-  rw [h.2] at g
-  have e1 : i + (k - 1) = i + k - 1 := by omega
-  have e2 : (((k - 1 : Nat) : Int) - 1 - defaultSlack) = (k : Int) - 2 - 10 := by
-    simp only [defaultSlack]; omega
-  rw [e1, e2] at g
-  exact g
+    t (i + k - 1) - t i ≥ ((k : Int) - 2 - 10) * (W / N) :=
+  Proofs.Limiter.main_sequential N W hN hW now hclk t hlo hseq i k hk
 
 /-- what the harness evaluates on the real limiter's output is true of every finite model run -/
 theorem C15_spec_verdict (N W : Int) (nows : List Int) :
     Spec.Limiter.holdsOrdered N W nows
-      ((run (cfg N W) State.init nows).map (·.release)) ((run (cfg N W) State.init nows).map (·.interval)) = true := by
-  unfold Spec.Limiter.holdsOrdered
-  by_cases hh : (decide (1 ≤ N) && decide (0 ≤ W) && Spec.Limiter.clockOK nows) = true
-  · simp only [Bool.and_eq_true, decide_eq_true_eq] at hh
-    have h := Proofs.Limiter.cfg_ok N W hh.1.1 hh.1.2 defaultSlack (by decide)
-    have r := Proofs.Limiter.run_rateOK _ _ h.1 nows hh.2
-    rw [h.2] at r
-    simp only [Spec.Limiter.perProbe, Spec.Limiter.burst, Proofs.Limiter.run_heldOK, Bool.true_and]
-    have r' : Spec.Limiter.rateOK (W / N) 10 (List.map (fun x => x.release) (run (cfg N W) State.init nows)) = true := r
-    simp [r']
-  · simp only [Bool.not_eq_true] at hh
-    simp [hh]
+      ((run (cfg N W) State.init nows).map (·.release)) ((run (cfg N W) State.init nows).map (·.interval)) = true :=
+  Proofs.Limiter.main_spec_verdict N W nows
 
 /-- `ratelimit.New` with a non-zero rate builds `cfg`; with rate 0 it panics (integer divide by zero) — the
     wiring never calls it with 0 (`C15_wiring`) -/
